@@ -237,7 +237,8 @@ PROPS["C18"] = dict(
           expected_verified=5),
         N("C18.encode_native", _WR2 % "c18_encode",
           "on the compiled default PixelDataWriter::encode with an encode_frame that emits frames of chosen lengths: one fragment and one "
-          "offset-table entry per frame, entry i = sum over the earlier frames of (8 + even-padded length), first entry 0",
+          "offset-table entry per frame, entry i = sum over the earlier frames of (8 + even-padded length), first entry 0; every fragment is "
+          "its frame's bytes padded to even length with one zero byte",
           bound="2406 frame-length vectors: 1-3 frames of 0-9 bytes, 4 frames of 0-5 bytes (native enumeration of the compiled code; not a "
                 "deductive result)",
           fns=[("encoding/src/adapters.rs", "encode", r"pub\s+trait\s+PixelDataWriter")]),
@@ -904,7 +905,7 @@ PROPS["C05"] = dict(
           "file, the lazy reader (reading the value), FileMetaTable::from_reader and read_pdu; every case in a child process limited to 1 GiB of "
           "address space (ulimit -v), because a failed allocation aborts the process and cannot be caught: a value or an error, never a dead "
           "process. KNOWN FINDING S25 (listed in known_findings.txt, not repaired): the stateful decoder allocates the declared length up front",
-          bound="112 (reader, transfer syntax, element) cases (native enumeration of the compiled code; not a deductive result); skipped where "
+          bound="117 cases: 112 (reader, transfer syntax, element) cases + hostile image attributes under 5 encapsulated transfer syntaxes (native enumeration of the compiled code; not a deductive result); skipped where "
                 "the address space of a child process cannot be limited",
           fns=[("parser/src/stateful/decode.rs", "read_value_ob")], timeout=1800),
         N("C05.hostile3_full", _WR2 % "c05_hostile3 -- full",
